@@ -7,9 +7,15 @@ import (
 	"math"
 
 	"github.com/cloudwego/dynamicgo/conv"
+	"github.com/cloudwego/dynamicgo/conv/j2p"
 	"github.com/cloudwego/dynamicgo/conv/j2t"
+	"github.com/cloudwego/dynamicgo/conv/p2j"
 	"github.com/cloudwego/dynamicgo/conv/t2j"
+	dproto "github.com/cloudwego/dynamicgo/proto"
 	"github.com/cloudwego/dynamicgo/thrift"
+	"google.golang.org/protobuf/proto"
+	"google.golang.org/protobuf/reflect/protoreflect"
+	"google.golang.org/protobuf/types/dynamicpb"
 
 	"verifharness/gen"
 	"verifharness/h"
@@ -205,6 +211,155 @@ func runC13(c *h.Ctx) {
 		c13Thrift(cs, numDesc, structType(numS), v, conv.Options{}, conv.Options{}, "escape-dense")
 		cs.Distinct(fmt.Sprintf("esc-%d-%s-%d", n, filler, density))
 	})
+	c13Proto(c)
+	c13ProtoCapacity(c)
+}
+
+// c13Proto: Protobuf -> JSON -> Protobuf (up to reference message equality) and JSON -> Protobuf -> JSON.
+func c13Proto(c *h.Ctx) {
+	c.Run("proto", c.N(5000, 200000), func(cs *h.Case) {
+		sc := gen.GenPSchema(cs.R, gen.PCfg{MaxDepth: 2, MaxFields: 6, Nested: cs.R.Bool(), Enums: true, BigNums: cs.R.Chance(30), JSONNames: cs.R.Bool()})
+		pc, err := PCompile(sc)
+		if err != nil {
+			cs.Cover("oracle_schema_rejected")
+			return
+		}
+		cs.Info("proto", pc.Text)
+		svc, err := dproto.NewDescritorFromContent(context.Background(), "verif.proto", pc.Text, nil)
+		if err != nil {
+			cs.Viol("rt:proto:parse", "err", err)
+			return
+		}
+		desc := svc.LookupMethodByName("M").Input()
+		m := PGenMsg(cs.R, pc.Root, PValCfg{MaxElems: 5, MaxDepth: 3}, 0)
+		b := PMarshal(m)
+		cs.Info("message", trunc(fmt.Sprint(m)))
+		cs.Info("bytes", hexs(b))
+		ctx := context.Background()
+		pj := p2j.NewBinaryConv(conv.Options{})
+		jp := j2p.NewBinaryConv(conv.Options{})
+		tr := h.TrapCopy(b, cs.R.Bool(), true)
+		defer tr.Free()
+		j, err := pj.Do(ctx, desc, tr.B)
+		if err != nil {
+			cs.Viol("rt:proto:p2j-error-on-domain", "err", err)
+			return
+		}
+		cs.Info("json", trunc(string(j)))
+		b2, err := jp.Do(ctx, desc, j)
+		if err != nil {
+			cs.Viol("rt:proto:j2p-error-on-p2j-output", "err", err)
+			return
+		}
+		got := dynamicpb.NewMessage(pc.Root)
+		if uerr := PUnmarshal(b2, got); uerr != nil {
+			cs.Viol("rt:proto:rejected-by-reference", "err", uerr, "out", b2)
+			return
+		}
+		if !proto.Equal(got, m) {
+			sig := "rt:proto:proto-json-proto"
+			if pHasNegZero(m) {
+				sig += ":neg-zero-sign-lost"
+			}
+			cs.Viol(sig, "got", trunc(fmt.Sprint(got)), "out", b2)
+			return
+		}
+		cs.Cover("proto_json_proto_ok")
+		j2, err := pj.Do(ctx, desc, b2)
+		if err != nil {
+			cs.Viol("rt:proto:p2j-error-second-pass", "err", err)
+			return
+		}
+		a1, e1 := ParseJSON(j)
+		a2, e2 := ParseJSON(j2)
+		if e1 != nil || e2 != nil || !jvEqual(a1, a2) {
+			cs.Viol("rt:proto:json-proto-json", "first", trunc(string(j)), "second", trunc(string(j2)))
+			return
+		}
+		cs.Cover("json_proto_json_ok")
+		cs.Distinct(fmt.Sprintf("prt-%s", c20Shape(m)))
+	})
+}
+
+// c13ProtoCapacity: round trips of messages whose nested regions end exactly at the capacities of j2p's
+// pooled output buffer (where the speculative one-byte length prefix has to be widened in a full buffer).
+var c13Fixed *c09Static
+
+func c13ProtoCapacity(c *h.Ctx) {
+	c.Run("proto-capacity", c.N(1500, 40000), func(cs *h.Case) {
+		st := c09Load(cs, c09Fixed, "Root", &c13Fixed)
+		if st == nil {
+			return
+		}
+		root, total, key := c09BoundaryMsg(cs, st)
+		b := PMarshal(root)
+		ctx := context.Background()
+		pj := p2j.NewBinaryConv(conv.Options{})
+		jp := j2p.NewBinaryConv(conv.Options{})
+		j, err := pj.Do(ctx, st.desc, b)
+		if err != nil {
+			cs.Viol("rt:proto-capacity:p2j-error-on-domain", "err", err)
+			return
+		}
+		b2, err := jp.Do(ctx, st.desc, j)
+		if err != nil {
+			cs.Viol("rt:proto-capacity:j2p-error-on-p2j-output", "err", err)
+			return
+		}
+		got := dynamicpb.NewMessage(st.md)
+		if uerr := PUnmarshal(b2, got); uerr != nil {
+			cs.Viol("rt:proto-capacity:rejected-by-reference", "err", uerr, "total", total)
+			return
+		}
+		if !proto.Equal(got, root) {
+			cs.Viol("rt:proto-capacity:proto-json-proto", "total", total)
+			return
+		}
+		cs.Cover("proto_capacity_ok")
+		cs.Distinct("pcap-" + key + fmt.Sprintf("-%d", total))
+	})
+}
+
+func pHasNegZero(m protoreflect.Message) bool {
+	nz := false
+	var rec func(m protoreflect.Message)
+	chk := func(fd protoreflect.FieldDescriptor, v protoreflect.Value) {
+		if fd.Kind() == protoreflect.FloatKind || fd.Kind() == protoreflect.DoubleKind {
+			if f := v.Float(); f == 0 && math.Signbit(f) {
+				nz = true
+			}
+		}
+	}
+	rec = func(m protoreflect.Message) {
+		m.Range(func(fd protoreflect.FieldDescriptor, v protoreflect.Value) bool {
+			switch {
+			case fd.IsMap():
+				v.Map().Range(func(k protoreflect.MapKey, mv protoreflect.Value) bool {
+					if fd.MapValue().Kind() == protoreflect.MessageKind {
+						rec(mv.Message())
+					} else {
+						chk(fd.MapValue(), mv)
+					}
+					return true
+				})
+			case fd.IsList():
+				for i := 0; i < v.List().Len(); i++ {
+					if fd.Kind() == protoreflect.MessageKind {
+						rec(v.List().Get(i).Message())
+					} else {
+						chk(fd, v.List().Get(i))
+					}
+				}
+			case fd.Kind() == protoreflect.MessageKind:
+				rec(v.Message())
+			default:
+				chk(fd, v)
+			}
+			return true
+		})
+	}
+	rec(m)
+	return nz
 }
 
 // sanitizeBinaries makes every string of v valid UTF-8 (needed when binaries travel as raw JSON strings)
